@@ -240,6 +240,21 @@ def topdown_predictor(n_nodes, anchor, c_scale, i_scale, c_max_stride, i_max_str
     return p
 
 
+def topdown_centroid_only_predictor(anchor, c_scale, c_max_stride, c_stride, sigma, max_hw, refinement, batch, skeleton, max_instances=None, peak_threshold=0.2):
+    """TopDownPredictor with only the centroid model: every detected centroid is matched to the nearest labelled instance
+    of its own frame (FindInstancePeaksGroundTruth); the frames must carry their labelled instances."""
+    from sleap_nn.inference.predictors import TopDownPredictor
+
+    ccfg = _cfg("centroid", {"confmaps": {"anchor_part": None, "sigma": sigma, "output_stride": c_stride}}, c_scale, c_max_stride, max_hw[0], max_hw[1], crop_hw=[32, 32])
+    p = TopDownPredictor(
+        centroid_config=ccfg, confmap_config=None, centroid_model=IdealCentroid(anchor, sigma, c_stride), confmap_model=None,
+        centroid_backbone_type="unet", centered_instance_backbone_type=None, skeletons=[skeleton], peak_threshold=peak_threshold,
+        integral_refinement=refinement, integral_patch_size=5, batch_size=batch, max_instances=max_instances, preprocess_config=None, anchor_ind=anchor,
+    )
+    p._initialize_inference_model()
+    return p
+
+
 def topdown_gt_predictor(n_nodes, anchor, i_scale, i_max_stride, i_stride, sigma, crop, max_hw, refinement, batch, skeleton, peak_threshold=0.2):
     """TopDownPredictor with only the centred-instance model: centroids are taken from the labelled instances."""
     from sleap_nn.inference.predictors import TopDownPredictor
